@@ -121,6 +121,19 @@ func (c04) Gen(r *rand.Rand, tier string, run int) *core.Case {
 	if c.Net.ReadMode != "tiny" && r.IntN(3) == 0 {
 		c.Params["big"] = 1
 	}
+	if c.Batch == "fault-free" && r.IntN(5) == 0 {
+		// the service also uses an object of its own through the in-process
+		// proxy its creation returned (generated Create<Itf>, bus.DirectClient):
+		// those calls, posts and cancellations never cross the server's door
+		c.Batch = "direct-proxy"
+		c.Params["direct"] = 1
+		dk := []string{"echo", "echo", "noarg", "fire", "slow", "cancel-echo", "cancel-noarg", "cancel-noarg"}
+		for k := 0; k < 2+r.IntN(2); k++ {
+			for i := 0; i < 1+r.IntN(4); i++ {
+				c.Ops = append(c.Ops, core.Op{Kind: dk[r.IntN(len(dk))], Actor: 70 + k, X: 0, Y: int64(nObj), S: strconv.FormatUint(r.Uint64()>>20, 16)})
+			}
+		}
+	}
 	if r.IntN(3) == 0 {
 		// the generic object features are calls like any other: statistics
 		// and tracing change how an object answers
@@ -231,6 +244,17 @@ func (c04) Run(c *core.Case, env *core.Env) {
 			}
 		}
 	}
+	var direct probe.ProbeProxy
+	if c.P("direct", 0) == 1 {
+		zzsim.SetNode("server")
+		impl := &ProbeImpl{Env: env, Obj: len(w.ObjIDs), SlowMs: c.P("slow_ms", 0)}
+		direct, err = probe.CreateProbe(nil, w.Svc, impl)
+		zzsim.SetNode("harness")
+		if err != nil {
+			env.Violate("setup/direct", "%v", err)
+			return
+		}
+	}
 	byActor := map[int][]core.Op{}
 	var actors []int
 	for _, op := range c.Ops {
@@ -268,6 +292,14 @@ func (c04) Run(c *core.Case, env *core.Env) {
 		go func(a int) {
 			defer wg.Done()
 			for i, op := range ops {
+				if a >= 70 && a < 80 {
+					if direct != nil {
+						zzsim.SetNode("server")
+						c04op(env, a, i, op, direct)
+						env.Probe("operations-through-the-direct-proxy")
+					}
+					continue
+				}
 				if int(op.X) >= len(proxies) || int(op.Y) >= len(proxies[op.X]) {
 					continue
 				}
